@@ -151,7 +151,14 @@ def conditions(p: Program, node, fi: FuncInfo) -> List[Tuple[ast.expr, bool]]:
         elif isinstance(owner, ast.While) and field == "body":
             conds.append((owner.test, True))
     # the node may be the test of the statement itself -> no extra condition
-    return conds
+    # `not X` holding is `X` not holding: hand out the positive test with the polarity flipped, so that an inverted
+    # if/else reads the same as the original to every rule
+    out = []
+    for c, pol in conds:
+        while isinstance(c, ast.UnaryOp) and isinstance(c.op, ast.Not):
+            c, pol = c.operand, not pol
+        out.append((c, pol))
+    return out
 
 
 def enclosing_conditions(p: Program, node, fi: FuncInfo) -> List[Tuple[ast.expr, bool]]:
@@ -159,8 +166,10 @@ def enclosing_conditions(p: Program, node, fi: FuncInfo) -> List[Tuple[ast.expr,
     (`if c: return` before the statement): the tests of the If/While statements that lexically enclose the node."""
     out = []
     for test, pol in conditions(p, node, fi):
-        par = p.parent_of(test)
-        if isinstance(par, (ast.If, ast.While)) and par.test is test and not within(p, node, par):
+        par, top = p.parent_of(test), test
+        while isinstance(par, ast.UnaryOp) and isinstance(par.op, ast.Not):
+            par, top = p.parent_of(par), par
+        if isinstance(par, (ast.If, ast.While)) and par.test is top and not within(p, node, par):
             continue
         out.append((test, pol))
     return out
